@@ -25,7 +25,7 @@ FUNCTIONS_ENCODED = ['MPSBaseQtz.sample_alpha_sm/sample_alpha_gs/sample_alpha_no
                      'torch.nn.functional.softmax / gumbel_softmax / one_hot (as decomposed by torch)', 'SuperNetCombiner.sample_alpha_sm/sample_alpha_gs/best_layer_index/summary',
                      'MPSConv2d/MPSLinear.selected_*_precision/summary/export (model instance)']
 BOUNDS = {'quick': 'per-layer alpha length 1..4, per-channel 2x2 and 3x2, combiner 2..4 branches; temperature symbolic in [0.05,20]; all flag combinations; one MPS model (Conv2d-ReLU-flatten-Linear, precisions (2,4,8)/(4,8)); whole MPS model with summary()/export() before the forward pass, per-layer and per-channel, coefficients written into an evaluated model, independent arg-max oracle on the raw coefficients; combiner re-sampled after its coefficients are updated (through .data / in place)',
-          'thorough': 'per-layer length 1..8, per-channel up to 3x4 / 4x3, combiner 2..8 branches, option-update sequences of length 2 before the forward pass'}
+          'thorough': 'per-layer length 1..8, per-channel up to 4x3 / 2x3, combiner 2..8 branches, option-update sequences of length 2 before the forward pass'}
 OUTSIDE = ['per-channel matrices larger than the bound (the sampling code is column-wise independent; not proved here)', 'ties between coefficients (gap < 0.05)', 'float32 softmax underflow at temperature 0.05 with gaps > 4.4 (reals have no underflow)']
 ASSUMPTIONS = ['pairwise gaps between competing coefficients >= 0.05 (no ties)', 'exp, log: arbitrary strictly increasing functions, exp > 0, exp(0) = 1, log(1) = 0', 'Gumbel noise: arbitrary reals (exponential_ stub returns arbitrary positives)']
 INSTANCE_TIMEOUT_S = {'quick': 900, 'thorough': 3000}
@@ -36,7 +36,7 @@ GAP = Fraction(1, 20)
 def instances(tier, seed):
     out = []
     lens = [1, 2, 3, 4] if tier == 'quick' else [1, 2, 3, 4, 6, 8]
-    mats = [(2, 2), (3, 2)] if tier == 'quick' else [(2, 2), (3, 2), (2, 3), (3, 4), (4, 3)]      # (8, 2): the arg-max queries do not finish within 120 s each
+    mats = [(2, 2), (3, 2)] if tier == 'quick' else [(2, 2), (3, 2), (2, 3), (4, 3)]      # (3, 4) and (8, 2): the arg-max queries do not finish within 120 s each
     flags = list(itertools.product([False, True], [False, True], [False, True]))   # hard, gumbel, training
     for n in lens:
         for hard, gumbel, training in flags:
